@@ -57,7 +57,7 @@ Inl(on, c, s)    == [k |-> "i", on |-> on, cond |-> c, sels |-> s]
 Spr(f, c)        == [k |-> "s", frag |-> f, cond |-> c]
 
 \* the named fragments of the universe (queries files always define all of them)
-FragOn   == [FJ |-> "J", FI |-> "I", FA |-> "A", FA2 |-> "A", FU |-> "U", FD |-> "D", FInl |-> "J", FB |-> "B"]
+FragOn   == [FJ |-> "J", FI |-> "I", FA |-> "A", FA2 |-> "A", FU |-> "U", FD |-> "D", FInl |-> "J", FB |-> "B", FAfr |-> "A"]
 FragSels == [FJ   |-> <<Leaf("id"), Leaf("name")>>,
              FI   |-> <<Leaf("rank")>>,
              FA   |-> <<Leaf("a1"), Leaf("tags")>>,
@@ -65,7 +65,9 @@ FragSels == [FJ   |-> <<Leaf("id"), Leaf("name")>>,
              FU   |-> <<Inl("A", "none", <<Leaf("a1")>>), Inl("D", "none", <<Leaf("d1")>>)>>,
              FD   |-> <<Leaf("d1")>>,
              FInl |-> <<Leaf("id"), Inl("A", "none", <<Leaf("a1")>>)>>,
-             FB   |-> <<Leaf("b1")>>]
+             FB   |-> <<Leaf("b1")>>,
+             \* a fragment whose selection holds an abstract-typed sub-field (the generator adds __typename inside it)
+             FAfr |-> <<Fld("friend", "-", "none", <<Leaf("id")>>)>>]
 FragNames == DOMAIN FragOn
 
 Overlaps(S, T) == Possible[S] \cap Possible[T] # {}
